@@ -30,13 +30,13 @@ pub struct Parser {
 
 fn p_token<V: Full, P: paseto_core::version::Purpose>(s: &str) -> Result<String, &'static str>
 where
-    V: paseto_core::version::UnsealingVersion<P>,
+    V: paseto_core::version::SealingVersion<P>,
 {
     SealedToken::<V, P, Raw, Vec<u8>>::from_str(s).map(|t| t.to_string()).map_err(|e| err_kind(&e))
 }
 fn s_token<V: Full, P: paseto_core::version::Purpose>(s: &str) -> Result<String, &'static str>
 where
-    V: paseto_core::version::UnsealingVersion<P>,
+    V: paseto_core::version::SealingVersion<P>,
 {
     let t = SealedToken::<V, P, Raw, Vec<u8>>::from_str(s).map_err(|e| err_kind(&e))?;
     let j = serde_json::to_string(&t).map_err(|_| "serde-ser")?;
